@@ -554,6 +554,7 @@ func slowReader(r *vh.Run, n int, pad int) {
 }
 
 func main() {
+	maybeServeNotifPeer()
 	kit.MaybeServeStdioChild()
 	kit.Silence()
 	r := vh.NewRun("C01", "exploration")
@@ -570,6 +571,10 @@ func main() {
 	if os.Getenv("C01_ONLY") == "connfault" { // debugging aid: only the connection-fault episodes
 		connFaultScenarios(r)
 		r.Finish("debug run: connection-fault episodes only", nil)
+	}
+	if os.Getenv("C01_ONLY") == "notif" { // debugging aid: only the notification-burst episodes
+		notifScenarios(r)
+		r.Finish("debug run: notification-burst episodes only", nil)
 	}
 	for round := 0; round < rounds; round++ {
 		for _, kind := range kit.AllKinds {
@@ -604,6 +609,7 @@ func main() {
 	mixScenarios(r)
 	pressureScenarios(r)
 	connFaultScenarios(r)
+	notifScenarios(r)
 
 	r.Finish("7 server configurations x {raw peer, library client} x completion regimes {immediate, random delay, barrier release}; "+
 		"raw peers use every id class (small/large integers up to 2^53, strings incl. digit strings and non-ASCII, same value as string and integer); "+
@@ -629,12 +635,20 @@ func main() {
 		"or the server closes the idle connection just before the call. Per call: runs of the tool handler for its nonce and arrivals at the server are counted; without retry option the handler must not run twice "+
 		"(and must have run when the real handler answered 200), whatever the client returns; the calls before and after it run once and any answer returned is the call's own. The same faults with WithRetry(MaxRetries=2), hitting the first "+
 		"arrival or every arrival: the handler runs at most 3 times and re-execution is actually observed. "+
-		"A case is distinct by (scenario, configuration, regime, id class) — conn-fault: (configuration, position, fault, retry, arrived on reused/fresh connection, client outcome, handler runs), counted only when the fault was applied to a request that arrived — mix: (configuration, operation, phase of the history, number of calls pending when issued), counted only in histories whose slow calls were all seen pending "+
+		"Notification-burst episodes on the three library clients: the stdio client against a library-free scripted peer (this binary; newline-delimited JSON-RPC, every request answered exactly once with its id, the answer recorded after "+
+		"it was written), the Streamable client against the real stateful / stateless servers (notifications on the POST-SSE stream of the call through the handler's notification sender, and on the GET stream through Server.SendNotification), "+
+		"the legacy SSE client against the real legacy server (SSEServer.SendNotification; that client cannot register handlers, so only the bursts are exercised). Per client 3 (thorough: 6) rounds; in a round a call X makes the server emit a burst "+
+		"of N notifications before its answer (N from a seed-determined list with a small 1-8, a middle 9-40 and a large 64-129, thorough up to 513, value; scripted peer: 0/3/20 more after the answer) while a call Y and a call P are answered "+
+		"only behind the burst and another P is in flight; the client's notification handlers either make a re-entrant client call (tools/call with its own nonce; stdio: every fourth a ListTools) and wait for it, or wait on a gate released only "+
+		"when Y returned at its caller, or are slow. Every call (X, Y, P, re-entrant R, the fence after the rounds) must return its own nonce and digest; a call that ends in an error although the server recorded its one answer and the fence "+
+		"call afterwards was answered is a violation (answered-call-not-delivered). "+
+		"A case is distinct by (scenario, configuration, regime, id class) — notification bursts: (configuration, handler behaviour, path of the notifications, role of the call, burst size class), counted only in rounds in which handlers were seen running (legacy: notifications were sent) — conn-fault: (configuration, position, fault, retry, arrived on reused/fresh connection, client outcome, handler runs), counted only when the fault was applied to a request that arrived — mix: (configuration, operation, phase of the history, number of calls pending when issued), counted only in histories whose slow calls were all seen pending "+
 		"until the release — and non-trivial when its answer was checked for id, nonce and digest (mix: against what the call asked for).",
 		[]string{"ids above 2^53 are outside the statement", "interleavings are sampled, not enumerated", "a missing answer is judged after a 20 s wait on an otherwise idle loopback connection",
 			"operation-mix histories: a call is called unanswered only when its 40 s watchdog fired (slow calls: counted from the release of the gate, and only when the handler is recorded to have returned) AND a call issued afterwards on the same client was answered; a transport failure is judged the same way; without the later answer the case is inconclusive",
 			"operation-mix histories: the context given to Initialize is kept alive for the whole history (cancelling it is a client life-cycle matter)",
 			"id value space: an id is echoed when the response id is equal as a JSON value (strings by code points whatever the escaping, numbers by exact value whatever the spelling) and of the same JSON type; integers written with an exponent or a zero fraction may also be refused with an error; on the asynchronous transports an answer is called missing only after the stream delivered nothing for 15 s AND two pings posted afterwards were answered on it, an error frame without id is attributed to a pending number-form request by count",
 			"connection-fault episodes: with a retry option configured the statement gives no number; the check reads it as at most MaxRetries+1 runs; a request the wrapper never handed to the real handler, or one that never arrived, may have 0 runs; a tool not seen running within 8 s on the legacy server (asynchronous) or behind the relay is inconclusive",
+			"notification-burst episodes: per-call contexts (30 s), the stdio transport's request timeout (15 s) and the handlers' gate wait (45 s) are watchdogs; a failed call is a violation only when the server recorded exactly one answer for it AND a fence call issued afterwards on the same client was answered, otherwise inconclusive; a handler blocked on the Streamable client only waits for a call on another HTTP exchange (the Streamable client runs handlers on the stream the notification arrived on)",
 			"back-pressure episodes: an answer is called missing only after the stream delivered nothing for 15 s AND two pings posted afterwards were answered on the same stream (Streamable: the POST's own response ended in order without it)"})
 }
